@@ -15,6 +15,8 @@ pub fn check_json(ctx: &Ctx, p: &str, sweep: &str, index: u64, shape: &str, text
     let (class, why) = verdict;
     let replay = || json!({"sweep": sweep, "index": index, "entry": "serde_json::from_str::<TypedData>", "typed_data_json": if text.len() > 6000 { format!("{}…", &text[..6000]) } else { text.to_string() }, "reference": class.name(), "reference_note": why,
         "reference_digest": match &class { Class::Accept(d) | Class::Unc(d) => Some(explore::hex(&d.digest)), _ => None }});
+    let stride = match ctx.property.as_str() { "C08" => 7, "C09" => 1, "C20" => 61, _ => 0 };
+    if stride > 0 && text.len() < 100_000 { ctx.emit_cli(sweep, index, stride, || json!({"kind": "typeddata", "shape": shape, "json": text, "class": class.name(), "digests": match &class { Class::Accept(d) | Class::Unc(d) => Some(vec![explore::hex(&d.domain_separator), explore::hex(&d.message_hash), explore::hex(&d.digest)]), _ => None }})); }
     ctx.sample(sweep, || json!({"shape": shape, "reference": class.name(), "json": if text.len() > 700 { format!("{}…", &text[..700]) } else { text.to_string() }}));
     match observe(text) {
         Err(pn) => { ctx.eval(format!("{shape}:panic")); ctx.panic_violation(format!("{p}:typeddata:{shape}:panic@{}", panic_site(&pn)), format!("panics: {pn}"), replay()) }
